@@ -2,7 +2,7 @@
 from __future__ import annotations
 
 import ast
-from typing import Optional
+from typing import Any, Optional
 
 from ..prog import AnalysisError, FuncInfo, call_name, short, stmt_head, unparse, walk_no_nested
 from ..util import assignments_to, atomic_guards, cfg_of, guards_at
@@ -52,84 +52,128 @@ def run(ctx) -> None:
 
 
 # ------------------------------------------------------------------------------------------ R1
-def _match_cases(f: FuncInfo) -> list[tuple[Optional[str], ast.match_case]]:
-    ms = [n for n in walk_no_nested(f.node) if isinstance(n, ast.Match)]
-    if len(ms) != 1:
-        raise AnalysisError(f"{f.qual}: expected exactly one match statement")
-    out = []
-    for c in ms[0].cases:
-        p = c.pattern
-        if isinstance(p, ast.MatchClass):
-            out.append((unparse(p.cls), c))
-        elif isinstance(p, ast.MatchSingleton):
-            out.append((repr(p.value), c))
-        elif isinstance(p, ast.MatchAs) and p.pattern is None:
-            out.append((None, c))
-        else:
-            raise AnalysisError(f"{f.qual}: case pattern {unparse(p)} not recognised")
+def _type_standins(ctx) -> dict[str, type]:
+    """One stand-in class per class of sigma.types / sigma.conditions, with the inheritance of the source (bare names)."""
+    prog = ctx.prog
+    if getattr(ctx, "_c01_type_standins", None) is not None:
+        return ctx._c01_type_standins
+    out: dict[str, type] = {}
+    from .c06_keys import U
+
+    def _any_attr(self_, k):
+        if k.startswith("__") and k.endswith("__"):
+            raise AttributeError(k)
+        return U(k)
+    members = {"__init__": lambda self_, *a, **k: None, "__getattr__": _any_attr}
+
+    def build(q: str) -> type:
+        bare = q.rsplit(".", 1)[-1]
+        if bare in out:
+            return out[bare]
+        c = prog.classes[q]
+        bases = []
+        for bq in c.bases if hasattr(c, "bases") else []:
+            if bq in prog.classes and bq.startswith(("sigma.types.", "sigma.conditions.")):
+                bases.append(build(bq))
+        if not bases:
+            for bq in list(prog.mro(q))[1:2]:
+                if bq in prog.classes and bq.startswith(("sigma.types.", "sigma.conditions.")):
+                    bases.append(build(bq))
+        try:
+            out[bare] = type(bare, tuple(bases) or (object,), dict(members))
+        except TypeError:  # inconsistent MRO of the stand-ins: the linearised bases of the source
+            lin = [build(bq) for bq in list(prog.mro(q))[1:] if bq in prog.classes and bq.startswith(("sigma.types.", "sigma.conditions."))]
+            out[bare] = type(bare, tuple(lin[:1]) or (object,), dict(members))
+        return out[bare]
+    for q in sorted(prog.classes):
+        if q.startswith(("sigma.types.", "sigma.conditions.")) and q.count(".") == 2:
+            build(q)
+    ctx._c01_type_standins = out
     return out
 
 
-def _case_action(c: ast.match_case) -> str:
-    st = c.body[0]
-    if isinstance(st, ast.Return) and isinstance(st.value, ast.Call):
-        return call_name(st.value)
-    if isinstance(st, ast.Raise):
-        return "raise " + (unparse(st.exc).split("(")[0] if st.exc is not None else "")
-    if isinstance(st, ast.If):
-        t = call_name(st.test) if isinstance(st.test, ast.Call) else unparse(st.test)
-        body = [call_name(x.value) for s_ in st.body for x in ast.walk(s_) if isinstance(x, ast.Return) and isinstance(x.value, ast.Call)]
-        orelse = [call_name(x.value) for s_ in st.orelse for x in ast.walk(s_) if isinstance(x, ast.Return) and isinstance(x.value, ast.Call)]
-        return f"if {t}: {'/'.join(body)} else: {'/'.join(orelse)}"
-    if isinstance(st, ast.Return):
-        return "return " + unparse(st.value)
-    return stmt_head(st, 60)
+def dispatch_outcomes(ctx, fq: str, subjects: dict[str, Any], attr: Optional[str] = "value") -> dict[str, str]:
+    """The dispatcher ``fq`` interpreted (sa.tabulate, Proxy) once per subject: every other convert_* method of the backend is
+    a recorder. → subject name → 'self.<method reached first>' | 'raise <exception class>' | 'return <value>'."""
+    import types as _types
+    from ..tabulate import Proxy, call_method, Raised
+    prog = ctx.prog
+    f = prog.func(fq)
+    cq = f.cls.qual
+    env = dict(_type_standins(ctx))
+    class SigmaError(Exception):
+        def __init__(self, *a, **k): super().__init__(*a)
+    for nm in ("SigmaValueError", "SigmaTypeError", "SigmaConversionError", "SigmaFeatureNotSupportedByBackendError"):
+        env[nm] = type(nm, (SigmaError,), {})
+    env["SigmaError"] = SigmaError
+    IK = {"max_steps": 6000, "behaviours": (SigmaError, TypeError, NotImplementedError)}
+    methods = {mn for q in prog.mro(cq) if (c := prog.classes.get(q)) is not None for mn in c.methods if (mn.startswith("convert_") or mn.startswith("decide_")) and mn != f.name}
+    out: dict[str, str] = {}
+    for name, subj in subjects.items():
+        reached: list[str] = []
+        def rec(mn):
+            def fn_(*a, **k):
+                reached.append(mn)
+                return False if mn.startswith("decide_") else f"<{mn}>"
+            return fn_
+        attrs = {mn: rec(mn) for mn in methods}
+        me = Proxy(prog, cq, env, attrs, interp_kwargs=IK)
+        arg = _types.SimpleNamespace(**{attr: subj, "field": "f", "source": None, "parent": None}) if attr else subj
+        try:
+            ret = call_method(prog, cq, f.name, me, env, arg, object(), interp_kwargs=IK)
+            handlers = [m_ for m_ in reached if not m_.startswith("decide_")]
+            out[name] = ("self." + handlers[0]) if handlers else f"return {ret!r}"
+        except Raised as ex:
+            nm = str(ex).split("(")[0].strip().split(".")[-1]
+            out[name] = "raise " + nm
+    return out
 
 
 def dispatch_map(ctx, fq: str) -> tuple[dict[str, str], Optional[str]]:
-    """concrete SigmaType subclass (bare name) -> handler it is dispatched to; plus default action."""
+    """concrete SigmaType subclass (bare name) -> handler an instance of it is dispatched to; plus what happens to a value of
+    no known type (the default action)."""
     prog = ctx.prog
-    f = prog.func(fq)
-    cases = _match_cases(f)
-    concrete = [c for c in prog.subclasses(TYPES + ".SigmaType", strict=True) if c.startswith(TYPES + ".")]
-    default = next((_case_action(c) for n, c in cases if n is None), None)
-    out = {}
-    for cq in concrete:
-        bare = cq.rsplit(".", 1)[-1]
-        hit = None
-        for n, c in cases:
-            if n is None:
-                continue
-            nq = prog.resolve_name(f.module, n)
-            if nq and prog.is_subclass(cq, nq):
-                hit = _case_action(c)
-                break
-        out[bare] = hit if hit is not None else ("default: " + str(default))
-    return out, default
+    cache = ctx.__dict__.setdefault("_c01_dispatch", {})
+    if fq in cache:
+        return cache[fq]
+    st = _type_standins(ctx)
+    concrete = [c.rsplit(".", 1)[-1] for c in prog.subclasses(TYPES + ".SigmaType", strict=True) if c.startswith(TYPES + ".")]
+    subjects = {b: st[b]() for b in concrete if b in st}
+    subjects["<a value of no Sigma type>"] = object()
+    res = dispatch_outcomes(ctx, fq, subjects)
+    default = res.pop("<a value of no Sigma type>")
+    out = {t: (h if not (h == default and h.startswith("raise") and not h.startswith("raise Sigma")) else "default: " + default) for t, h in res.items()}
+    cache[fq] = (out, default)
+    return cache[fq]
 
 
 def r1_dispatch(ctx) -> None:
     r, prog = ctx.r, ctx.prog
-    r.rule("C01.R1", "dispatch totality and order: every concrete SigmaType has a case in the field-bound dispatcher; no class pattern follows a pattern of one of its base classes; in the keyword dispatcher a type either has its own case/explicit Sigma error or the default raises a Sigma error; the node dispatcher covers OR/AND/NOT/field=value/value/None")
+    r.rule("C01.R1", "dispatch totality and order: every concrete SigmaType reaches a handler in the field-bound dispatcher; every handler of the dispatcher is reached by some type (a case behind the case of its base class would be dead); in the keyword dispatcher a type either has its own handler/explicit Sigma error or the default raises a Sigma error; the node dispatcher covers OR/AND/NOT/field=value/value/None — all three dispatchers interpreted once per class of the hierarchy")
     mixins = {"NoPlainConversionMixin", "SigmaType"}
-    for fq in (B + ".convert_condition_field_eq_val", B + ".convert_condition_val"):
-        f = prog.func(fq)
-        cases = _match_cases(f)
-        names = [n for n, _ in cases if n is not None]
-        # shadowing
-        for i, n in enumerate(names):
-            nq = prog.resolve_name(f.module, n)
-            for m in names[:i]:
-                mq = prog.resolve_name(f.module, m)
-                if nq and mq and nq != mq and prog.is_subclass(nq, mq):
-                    r.violation("C01.R1", fq, f"case {n}() after case {m}()", f"{n} is a subclass of {m}: its case is unreachable and its values are converted by the handler of {m} (e.g. case-sensitive strings as case-insensitive ones)", f.loc)
-        r.ok("C01.R1", fq, f"case order {names}: no class pattern follows one of its base classes", f.loc)
     fmap, fdef = dispatch_map(ctx, B + ".convert_condition_field_eq_val")
     vmap, vdef = dispatch_map(ctx, B + ".convert_condition_val")
+    for fq, mp, prefix in ((B + ".convert_condition_field_eq_val", fmap, ("convert_condition_field_eq_", "convert_condition_field_compare_")), (B + ".convert_condition_val", vmap, ("convert_condition_val_",))):
+        f = prog.func(fq)
+        reached = {h[5:] for h in mp.values() if h.startswith("self.")}
+        # handlers the dispatcher names (as attribute or text) but no type reaches: a shadowed case
+        named = {n.attr for n in ast.walk(f.node) if isinstance(n, ast.Attribute) and n.attr.startswith(prefix)} | \
+                {x.value for n in ast.walk(f.cls.node) for x in ast.walk(n) if isinstance(x, ast.Constant) and isinstance(x.value, str) and x.value.startswith(prefix) and prog.lookup_method(f.cls.qual, x.value) is not None and n is not None and False}
+        tbl_names = set()
+        for st_ in f.cls.node.body:
+            if isinstance(st_, (ast.Assign, ast.AnnAssign)) and getattr(st_, "value", None) is not None:
+                tname = (st_.targets[0] if isinstance(st_, ast.Assign) else st_.target)
+                if isinstance(tname, ast.Name) and any(isinstance(x, ast.Attribute) and x.attr == tname.id for x in ast.walk(f.node)):
+                    tbl_names |= {x.value for x in ast.walk(st_.value) if isinstance(x, ast.Constant) and isinstance(x.value, str) and x.value.startswith(prefix)}
+        dead = sorted((named | tbl_names) - reached - {f.name})
+        if dead:
+            r.violation("C01.R1", fq, f"handler {dead[0]} is never reached", f"no value type is dispatched to {dead[0]} although the dispatcher names it: its case follows the case of a base class (or its class test can never hold), so the values it was written for are converted by another handler (e.g. case-sensitive strings as case-insensitive ones)", f.loc)
+        else:
+            r.ok("C01.R1", fq, f"every handler the dispatcher names is reached by some value type ({len(reached)} handlers): no case is shadowed by the case of a base class", f.loc)
     for t, h in sorted(fmap.items()):
         if t in mixins or t.endswith("Mixin"):
             continue
-        if h.startswith("default"):
+        if h.startswith("default") or h.startswith("raise"):
             r.violation("C01.R1", B + ".convert_condition_field_eq_val", f"{t}: {h}", f"value type {t} has no case in the field-bound dispatcher", "")
         else:
             r.ok("C01.R1", B + ".convert_condition_field_eq_val", f"{t} → {h.replace('self.', '')}")
@@ -152,19 +196,38 @@ def r1_dispatch(ctx) -> None:
             else:
                 r.ok("C01.R1", B + ".convert_condition_val", f"{t} → {h.replace('self.', '')}")
     f = prog.func(B + ".convert_condition")
-    cases = dict(_match_cases(f))
-    need = ["ConditionOR", "ConditionAND", "ConditionNOT", "ConditionFieldEqualsValueExpression", "ConditionValueExpression", "None"]
-    if all(n in cases for n in need):
-        r.ok("C01.R1", f.qual, f"node dispatcher covers {need}", f.loc)
+    st = _type_standins(ctx)
+    need = ["ConditionOR", "ConditionAND", "ConditionNOT", "ConditionFieldEqualsValueExpression", "ConditionValueExpression"]
+    subjects = {n: st[n]() for n in need if n in st}
+    subjects["None"] = None
+    node = dispatch_outcomes(ctx, f.qual, subjects, attr=None)
+    want = {"ConditionOR": "self.convert_condition_or", "ConditionAND": "self.convert_condition_and", "ConditionNOT": "self.convert_condition_not",
+            "ConditionFieldEqualsValueExpression": "self.convert_condition_field_eq_val", "ConditionValueExpression": "self.convert_condition_val", "None": "return None"}
+    if node == want:
+        r.ok("C01.R1", f.qual, f"node dispatcher covers {need + ['None']}", f.loc)
     else:
-        r.violation("C01.R1", f.qual, f"cases {list(cases)}", f"node dispatcher must cover {need}", f.loc)
+        diff = {k: v for k, v in node.items() if want.get(k) != v}
+        r.violation("C01.R1", f.qual, f"cases {diff}", f"node dispatcher must cover {need + ['None']}: expected {({k: want[k] for k in diff})}", f.loc)
+    # OR/AND: the in-expression iff decide_… says so
+    import types as _types
+    from ..tabulate import Proxy, call_method, Raised
     for op in ("ConditionOR", "ConditionAND"):
-        act = _case_action(cases[op]) if op in cases else ""
-        want = f"if self.decide_convert_condition_as_in_expression: self.convert_condition_as_in_expression else: self.convert_condition_{'or' if op.endswith('OR') else 'and'}"
-        if act == want:
+        outs = {}
+        for decide in (True, False):
+            reached: list[str] = []
+            attrs = {mn: (lambda *a, _m=mn, **k: (reached.append(_m), f"<{_m}>")[1]) for q in prog.mro(f.cls.qual) if (c := prog.classes.get(q)) is not None for mn in c.methods if mn.startswith("convert_") and mn != f.name}
+            attrs["decide_convert_condition_as_in_expression"] = lambda *a, _d=decide, **k: _d
+            me = Proxy(prog, f.cls.qual, dict(st), attrs, interp_kwargs={"max_steps": 4000})
+            try:
+                call_method(prog, f.cls.qual, f.name, me, dict(st), st[op](), object(), interp_kwargs={"max_steps": 4000})
+                outs[decide] = reached[0] if reached else None
+            except Raised as ex:
+                outs[decide] = f"raises {ex}"
+        want_o = {True: "convert_condition_as_in_expression", False: f"convert_condition_{'or' if op.endswith('OR') else 'and'}"}
+        if outs == want_o:
             r.ok("C01.R1", f.qual, f"{op} → in-expression iff decide_…, else convert_condition_{'or' if op.endswith('OR') else 'and'}", f.loc)
         else:
-            r.violation("C01.R1", f.qual, f"{op} → {act}", f"expected {want}", f.loc)
+            r.violation("C01.R1", f.qual, f"{op} → {outs}", f"expected {want_o}", f.loc)
     r.floor("C01.R1", 25)
 
 
